@@ -2239,7 +2239,13 @@ class DesignSpace:
             raise ValueError(msg)
 
         for dictionary in [self.normalize, self._variables, self.__names_to_indices]:
-            dictionary[new_name] = dictionary.pop(current_name)
+            # Rename in place to preserve the order of the variables.
+            renamed_dictionary = {
+                new_name if name == current_name else name: value
+                for name, value in dictionary.items()
+            }
+            dictionary.clear()
+            dictionary.update(renamed_dictionary)
 
         current_value = self._current_value.pop(current_name, None)
         if current_value is not None:
